@@ -85,7 +85,13 @@ def build(repo, work, goenv):
     return bindir
 
 
-def runner(bindir, repo, conf, mode, known, impl, extra=None, timeout=3600):
+def tzif(offset_s, abbr=b"FIX"):
+    """A TZif (version 1) file describing one fixed offset; Go loads it when TZ is an absolute path."""
+    import struct
+    return b"TZif" + b"\0" + b"\0" * 15 + struct.pack(">6l", 0, 0, 0, 0, 1, len(abbr) + 1) + struct.pack(">lBB", offset_s, 0, 0) + abbr + b"\0"
+
+
+def runner(bindir, repo, conf, mode, known, impl, extra=None, timeout=3600, env=None):
     cmd = [os.path.join(bindir, "connectconformance"), "-v", "--conf", conf, "--mode", mode, "--trace"]
     if known:
         cmd += ["--known-failing", "@" + known]
@@ -93,7 +99,7 @@ def runner(bindir, repo, conf, mode, known, impl, extra=None, timeout=3600):
     cmd += ["--", os.path.join(bindir, impl)]
     t0 = time.time()
     try:
-        p = subprocess.run(cmd, cwd=repo, capture_output=True, text=True, timeout=timeout)
+        p = subprocess.run(cmd, cwd=repo, capture_output=True, text=True, timeout=timeout, env=(dict(os.environ, **env) if env else None))
         rc, out, err = p.returncode, p.stdout, p.stderr
     except subprocess.TimeoutExpired as e:
         rc, out, err = -9, (e.stdout or b"").decode("utf8", "replace") if isinstance(e.stdout, bytes) else (e.stdout or ""), "TIMEOUT"
@@ -153,6 +159,27 @@ def matrix(unit, work, tier, seed, repo, goenv):
             ("reference-tls-certs/server", tls_conf, "server", "testing/referenceserver-known-failing.txt", "referenceserver", tls_extra),
             ("reference-tls-certs/client", tls_conf, "client", "testing/referenceclient-known-failing.txt", "referenceclient", tls_extra),
         ]
+    # The process environment is an input too: the same small pass (Basic/** with cleartext, TLS and client
+    # certificates) under a runtime with one CPU, and under local time zones chosen so that the local calendar
+    # date is one day ahead of / behind the UTC date at the moment of the run (fixed-offset TZif files; the
+    # clock is only read to choose the offsets, it is not an oracle).
+    env_conf = os.path.join(work, "env-tls-config.yaml")
+    open(env_conf, "w").write(QUICK_TLS_CONFIG)
+    tod = int(time.time()) % 86400
+    tzdir = os.path.join(work, "tz")
+    os.makedirs(tzdir, exist_ok=True)
+    open(os.path.join(tzdir, "ahead"), "wb").write(tzif(86400 - tod + 1800))
+    open(os.path.join(tzdir, "behind"), "wb").write(tzif(-(tod + 1800)))
+    env_extra = ["--run", "Basic/**", "--run", "TLS Client Certs/**"]
+    for ename, env in (("env-one-cpu", {"GOMAXPROCS": "1"}), ("env-date-ahead", {"TZ": os.path.join(tzdir, "ahead")}), ("env-date-behind", {"TZ": os.path.join(tzdir, "behind")})):
+        runs += [
+            (ename + "/server", env_conf, "server", "testing/referenceserver-known-failing.txt", "referenceserver", env_extra, env),
+            (ename + "/client", env_conf, "client", "testing/referenceclient-known-failing.txt", "referenceclient", env_extra, env),
+        ]
+    runs += [
+        ("env-one-cpu/grpc-server", "testing/grpc-impls-config.yaml", "server", "testing/grpcserver-known-failing.txt", "grpcserver", [], {"GOMAXPROCS": "1"}),
+        ("env-one-cpu/grpc-client", "testing/grpc-impls-config.yaml", "client", "testing/grpcclient-known-failing.txt", "grpcclient", [], {"GOMAXPROCS": "1"}),
+    ]
     only = os.environ.get("VERIF_C01_ONLY")
     rep = {"evaluations": 0, "distinct_nontrivial": 0, "samples": [], "violations": [], "exhaustive": True, "outcomes": {}, "counters": {},
            "rule": "one evaluation = one (config case x embedded test case) permutation executed by the real binaries; all permutations of a run are distinct by name; non-trivial = it ran (has a verdict)",
@@ -167,10 +194,11 @@ def matrix(unit, work, tier, seed, repo, goenv):
     for run_ in runs:
         name, conf, mode, known, impl = run_[:5]
         base_extra = list(run_[5]) if len(run_) > 5 else []
+        run_env = run_[6] if len(run_) > 6 else None
         if only and only not in name:
             continue
         confp = conf if os.path.isabs(conf) else os.path.join(repo, conf)
-        rc, out, err, secs = runner(bindir, repo, confp, mode, os.path.join(repo, known), impl, extra=base_extra)
+        rc, out, err, secs = runner(bindir, repo, confp, mode, os.path.join(repo, known), impl, extra=base_extra, env=run_env)
         res = parse(out)
         info = {"exit": rc, "wall_s": round(secs, 1), **{k: v for k, v in res.items() if k not in ("failed_names", "info_names")},
                 "known_failing_matched": len(res["info_names"])}
@@ -196,7 +224,7 @@ def matrix(unit, work, tier, seed, repo, goenv):
                 extra = [a for a in base_extra[:2] if base_extra[:1] == ["--max-servers"]]
                 for fn in chunk:
                     extra += ["--run", fn]
-                rc2, out2, err2, _s = runner(bindir, repo, confp, mode, os.path.join(repo, known), impl, extra=extra, timeout=1800)
+                rc2, out2, err2, _s = runner(bindir, repo, confp, mode, os.path.join(repo, known), impl, extra=extra, timeout=1800, env=run_env)
                 r2 = parse(out2)
                 if r2["total"] is None:
                     still += chunk  # the re-run itself broke: keep them as failing
@@ -218,7 +246,7 @@ def matrix(unit, work, tier, seed, repo, goenv):
             for _round in range(2):
                 if not again:
                     break
-                rc3, out3, err3, secs3 = runner(bindir, repo, confp, mode, os.path.join(repo, known), impl, extra=base_extra)
+                rc3, out3, err3, secs3 = runner(bindir, repo, confp, mode, os.path.join(repo, known), impl, extra=base_extra, env=run_env)
                 r3 = parse(out3)
                 again = [fn for fn in again if fn in (r3["failed_names"] or [])]
             if again:
